@@ -204,7 +204,8 @@ fn template_line(rng: &mut Rng, vocab: &[String]) -> String {
         }
     };
     let cs = |rng: &mut Rng| vocab[rng.below(vocab.len())].clone();
-    match rng.below(50) {
+    match rng.below(53) {
+        50..=52 => param_sweep(rng, vocab),
         49 => hidden_name(rng),
         47 | 48 => deep_nesting(rng),
         41..=43 => wide_layout(rng),
@@ -317,6 +318,34 @@ fn template_line(rng: &mut Rng, vocab: &[String]) -> String {
             .to_string()
         }
     }
+}
+
+/// Every installed name is assigned a boundary number as if it were an integer parameter (most are
+/// not: an ordinary located error), then a battery of ordinary uses runs under whatever the
+/// assignment changed - units and magnification, arithmetic, macro calls, groups, codes. A
+/// parameter that is only validated where it is used, not where it is set, shows here.
+fn param_sweep(rng: &mut Rng, vocab: &[String]) -> String {
+    let battery = [
+        "\\dimen1=1truept ", "\\skip1=1pt plus 2truein minus 3truecm ", "\\dimen1=1.5em ", "\\count1=\\dimen1 ", "\\dimen1=2\\dimen2 ", "\\the\\dimen1 ",
+        "\\def\\xa#1{#1}\\xa{y}", "\\ifnum\\count1<2 a\\fi ", "{\\count1=5 }", "\\advance\\dimen1 by 1truept ", "\\mathchardef\\xb=\"7FFF \\xb ", "\\chardef\\xc=65 \\xc ",
+        "\\catcode65=11 A", "\\toks1={a}\\the\\toks1 ", "\\multiply\\dimen1 by 2 ", "\\divide\\skip1 by 3 ", "\\dimen1=-.5truemm ", "x\\undefinedcs ",
+    ];
+    let cs = &vocab[rng.below(vocab.len())];
+    let num = if rng.chance(1, 2) {
+        ["0", "-1", "1", "65536", "65537", "32768", "2147483647", "-2147483647", "1000", "256", "255", "1114112"][rng.below(12)].to_string()
+    } else {
+        NUMBERS[rng.below(NUMBERS.len())].to_string()
+    };
+    // on its own line half of the time, so that a fatal error of the assignment does not take the
+    // battery with it
+    let mut s = format!("{cs}={num} ");
+    if rng.chance(1, 2) {
+        s = format!("\\global{s}");
+    }
+    for _ in 0..2 + rng.below(3) {
+        s.push_str(battery[rng.below(battery.len())]);
+    }
+    s
 }
 
 /// Installed commands whose names cannot be typed under the default category codes (they contain
@@ -917,6 +946,73 @@ impl Property for C09 {
                     class: "c09:aborted".into(),
                     detail: a.clone(),
                 });
+            }
+        }
+        // Second execution on the repository's own `StdLibState` (its glue: hook delegations,
+        // component wiring), for jobs that touch neither files nor the terminal nor the disk
+        // (that type hard-wires the real ones) and that the first execution finished within every
+        // budget (that type has no budget hooks). One eligible run in two.
+        // (Also excluded: the harness's own font selectors. They are installed on this state type
+        // for the scoping workloads only; `StdLibState` does not implement the font side of
+        // `TheCompatible`, and no shipped primitive can create a font.)
+        let file_or_terminal = ["\\input", "\\openin", "\\read", "\\closein", "\\dump", "\\endinput", "\\font"];
+        let eligible = ev.violation.is_none()
+            && trace.aborted.is_none()
+            && case.hash_seed % 2 == 1
+            && trace.execs.iter().all(|e| matches!(e.obs.result, LineResult::Ok | LineResult::Err(_)))
+            && !job.lines.iter().any(|l| file_or_terminal.iter().any(|w| l.contains(w)));
+        if eligible {
+            ev.bump("runs_also_on_real_StdLibState");
+            let job2 = Job {
+                lines: case.lines.clone(),
+                env: EnvSpec::default(),
+                clock: Clock::default(),
+                real_state: true,
+            };
+            let t2 = run_job(&job2, &Schedule::reference(case.hash_seed), true);
+            for ex in &t2.execs {
+                ev.bump("lines_executed_on_real_StdLibState");
+                let line = &job2.lines[ex.line];
+                let v = match &ex.obs.result {
+                    LineResult::Ok | LineResult::Budget => None,
+                    LineResult::Panic { location, message } => Some((
+                        format!("c09:panic:{}", panic_site(location, message)),
+                        format!("panic at {location}: {message}"),
+                    )),
+                    LineResult::Err(e) => {
+                        if let Some((loc, msg)) = &e.render_panic {
+                            Some((format!("c09:render-panic:{}", panic_site(loc, msg)), format!("rendering the error `{}` panicked at {loc}: {msg}", e.title)))
+                        } else if !e.located() {
+                            Some(("c09:unlocated-error".to_string(), format!("error `{}` carries no source location", e.title)))
+                        } else if !e.rendered_len_nonzero {
+                            Some(("c09:empty-rendering".to_string(), format!("error `{}` renders to nothing", e.title)))
+                        } else {
+                            None
+                        }
+                    }
+                };
+                let v = v.or_else(|| {
+                    if matches!(ex.obs.result, LineResult::Ok | LineResult::Err(_)) && ex.obs.exec_stack != 0 {
+                        Some(("c09:execution-stack-not-empty".to_string(), format!("the execution stack holds {} frames afterwards", ex.obs.exec_stack)))
+                    } else {
+                        None
+                    }
+                });
+                if let Some((class, what)) = v {
+                    ev.violation = Some(Violation {
+                        class,
+                        detail: format!("on the repository's own StdLibState: line {} `{}`: {what}", ex.line, line),
+                    });
+                    break;
+                }
+            }
+            if let Some(a) = &t2.aborted {
+                if ev.violation.is_none() {
+                    ev.violation = Some(Violation {
+                        class: "c09:aborted".into(),
+                        detail: format!("on the repository's own StdLibState: {a}"),
+                    });
+                }
             }
         }
         for d in &case.damage {
